@@ -454,6 +454,15 @@ def main(tier, replay, t0):
             raise core.Inconclusive("threaded big formatter run failed: %s" % p.stderr[-1500:])
         record("bigthr", res, single_thread=False)
         stats["processes"] += 2
+        # more formatter-on calls in flight than the machine has cores (a call must not choose
+        # another way of formatting because others are busy)
+        many = [dict(j) for _ in range(3) for j in fj[:24]]
+        p, res = core.run_drive(binp, many, "c18/fmt48", threads=48, shuffle=11, cwd=cwd_b,
+                                timeout=900, extra_env={"PATH": real_dir + ":/usr/bin:/bin"})
+        if p.returncode != 0 or len(res) != len(many):
+            raise core.Inconclusive("48-thread formatter run failed: %s" % p.stderr[-1500:])
+        record("fmt48", res, single_thread=False)
+        stats["processes"] += 1
         # the formatter's speed is not an input: a correct but slow formatter must give the
         # same bytes as the fast one
         slow = fj[:8]
